@@ -80,22 +80,40 @@ func (g *gen) Add(name string, typs []types.Type) (string, error) {
 }
 
 // renameParam returns the signature with the parameters of the given name renamed to the prefix and their index.
+// When a result bears the name, the results are left without their names: either all of them are named or none is.
 func renameParam(sig *types.Signature, name, prefix string) *types.Signature {
+	if name == "" || name == "_" {
+		return sig
+	}
 	params := sig.Params()
 	vars := make([]*types.Var, params.Len())
 	renamed := false
 	for i := range vars {
 		v := params.At(i)
-		if name != "" && name != "_" && v.Name() == name {
+		if v.Name() == name {
 			v = types.NewVar(v.Pos(), v.Pkg(), prefix+strconv.Itoa(i), v.Type())
 			renamed = true
 		}
 		vars[i] = v
 	}
+	results := sig.Results()
+	for i := 0; i < results.Len(); i++ {
+		if results.At(i).Name() != name {
+			continue
+		}
+		unnamed := make([]*types.Var, results.Len())
+		for j := range unnamed {
+			r := results.At(j)
+			unnamed[j] = types.NewVar(r.Pos(), r.Pkg(), "", r.Type())
+		}
+		results = types.NewTuple(unnamed...)
+		renamed = true
+		break
+	}
 	if !renamed {
 		return sig
 	}
-	return types.NewSignature(sig.Recv(), types.NewTuple(vars...), sig.Results(), sig.Variadic())
+	return types.NewSignature(sig.Recv(), types.NewTuple(vars...), results, sig.Variadic())
 }
 
 func (g *gen) Generate(typs []types.Type) error {
